@@ -430,7 +430,7 @@ def write_replay(prop, hist, res, key, signature, what):
         "violations": res["violations"][:5],
     }
     with open(path, "w") as f:
-        json.dump(body, f, indent=1, sort_keys=True)
+        json.dump(body, f, indent=1)   # key order is part of a history (attribute dictionaries)
     return path
 
 
